@@ -962,6 +962,48 @@ def _open(I, path, mode="r", **kw):
 BUILTINS["open"] = _open
 
 
+class _PIter:
+    """iter(...) over a container of concrete length: a position in a snapshot of its items."""
+
+    def __init__(self, items):
+        self.items = list(items)
+        self.pos = 0
+
+
+def _iter(I, it):
+    got = I.iterate(it, None) if hasattr(I, "iterate") else None
+    if got is None:
+        if isinstance(it, PList):
+            got = list(it.items)
+        elif isinstance(it, PDict):
+            got = [k for k, _ in it.entries]
+        elif isinstance(it, (list, tuple, str)):
+            got = list(it)
+        elif isinstance(it, _PIter):
+            return it
+        else:
+            raise Unsupported(f"iter() of {type(it).__name__}")
+    return _PIter(got)
+
+
+_NO_DEFAULT = object()
+
+
+def _next(I, it, default=_NO_DEFAULT):
+    if not isinstance(it, _PIter):
+        raise Unsupported(f"next() of {type(it).__name__}")
+    if it.pos < len(it.items):
+        it.pos += 1
+        return it.items[it.pos - 1]
+    if default is _NO_DEFAULT:
+        raise PyRaise("StopIteration", "")
+    return default
+
+
+BUILTINS["iter"] = _iter
+BUILTINS["next"] = _next
+
+
 def builtin(I, name):
     if name in BUILTINS:
         return PBuiltin(name, BUILTINS[name])
